@@ -21,6 +21,11 @@ def split_scripts(text, oracle_out=None, inv_out=None):
                     if d.get("fail"):
                         inv_out.setdefault("fails", []).append({"script": name, "step": len(cur), "invariants": d["fail"]})
             continue
+        if ln.startswith("!T"):
+            # impl-side marker: from here on the running script is outside the contract of the properties (harness/oracle_kernel.hh: note_history)
+            if oracle_out is not None and cur is not None:
+                oracle_out.append({"script": name, "step": len(cur), "oracle": "__taint__", "what": ln[3:]})
+            continue
         if ln.startswith("!O "):
             if oracle_out is not None and cur is not None:
                 parts = ln.split(" ", 2)
@@ -55,7 +60,7 @@ class Divergence:
         return {"script": self.script, "first_bad_step": self.step, "component": self.component,
                 "impl_says": self.impl, "model_says": self.model, "op": self.echo}
 
-def compare(impl_blocks, model_blocks, name, valid=None):
+def compare(impl_blocks, model_blocks, name, valid=None, tainted_at=None):
     n = max(len(impl_blocks), len(model_blocks))
     for i in range(n):
         if i >= len(impl_blocks):
@@ -66,6 +71,8 @@ def compare(impl_blocks, model_blocks, name, valid=None):
             # a crash after the history left the documented contract (a halfface in two live cells, a live entity referring to a
             # deleted one, ...: Kernel/InvB.v valid_b false on the state BEFORE the call) is not judged
             if valid is not None and i >= 1 and i - 1 < len(valid) and not valid[i - 1]:
+                return Divergence(name, i + 1, "crash-out-of-contract", ib[0], mb, mb)
+            if tainted_at is not None and tainted_at <= i:
                 return Divergence(name, i + 1, "crash-out-of-contract", ib[0], mb, mb)
             return Divergence(name, i + 1, "crash", ib[0], mb, mb)
         if i >= len(model_blocks):
@@ -108,7 +115,8 @@ def lockstep(impl_cmd, model_cmd, script_file, timeout=600, model_env=None):
     outcomes = {"Ok": 0, "Rejected": 0, "Unresolvable": 0}
     ops = {}
     for name, mblocks in sm.items():
-        d = compare(si.get(name, []), mblocks, name, inv.get("valid_by_script", {}).get(name))
+        taint = min([o["step"] for o in ofails if o["oracle"] == "__taint__" and o["script"] == name], default=None)
+        d = compare(si.get(name, []), mblocks, name, inv.get("valid_by_script", {}).get(name), taint)
         if d: divs.append(d)
         steps += len(mblocks)
         for b in mblocks:
@@ -120,7 +128,9 @@ def lockstep(impl_cmd, model_cmd, script_file, timeout=600, model_env=None):
     for name in si:
         if name not in sm:
             divs.append(Divergence(name, 0, "missing", "<script only on impl side>", "", ""))
-    return divs, {"scripts": len(sm), "steps": steps, "outcomes": outcomes, "ops": ops, "wall_s": wall, "oracle_fails": ofails, "inv": inv,
+    taints = [o for o in ofails if o["oracle"] == "__taint__"]
+    ofails[:] = [o for o in ofails if o["oracle"] != "__taint__"]
+    return divs, {"tainted_scripts": len({o["script"] for o in taints}), "scripts": len(sm), "steps": steps, "outcomes": outcomes, "ops": ops, "wall_s": wall, "oracle_fails": ofails, "inv": inv,
                   "impl_stderr_tail": ie[-3000:], "model_out": mo, "impl_out": io}
 
 def extract_script(script_file, name):
